@@ -138,6 +138,7 @@ func TestVerifC13(t *testing.T) {
 				}
 			}()
 			var unsubOnce sync.Once
+			var stalledSubs atomic.Int64
 			tmpSub := e.EventBus.Subscribe(4)
 
 			var clock atomic.Int64 // porcupine timestamps
@@ -272,6 +273,12 @@ func TestVerifC13(t *testing.T) {
 						if i == perClient/2 && c == 0 {
 							unsubOnce.Do(func() { e.EventBus.Unsubscribe(tmpSub) })
 						}
+						// fresh subscribers that never read: each one's small buffer fills while the
+						// other clients are emitting, and must never hold a writer back
+						if i%8 == c%8 {
+							e.EventBus.Subscribe(1 + (i/8)%2)
+							stalledSubs.Add(1)
+						}
 					}
 				}(c, r)
 			}
@@ -344,6 +351,7 @@ func TestVerifC13(t *testing.T) {
 			ctx.Count("hook_hits", int64(hits.Load()))
 			ctx.Count("distinct_cross_goroutine_hook_pairs", int64(nPairs))
 			ctx.Count("events_drained", drained.Load())
+			ctx.Count("stalled_subscribers", stalledSubs.Load())
 
 			if wl == "W4_close" {
 				doClose()
